@@ -327,6 +327,7 @@ func (s *scn) start() {
 	if s.afterNew != nil {
 		s.afterNew()
 	}
+	checkStdLogger(s.c, "the constructor", s.desc)
 	s.parked = waitRunParked(s.fl)
 	if !s.parked {
 		s.c.Count("run_goroutine_park_unconfirmed", 1)
@@ -407,7 +408,9 @@ func (s *scn) start() {
 			s.fl.ApplyConfig(conf)
 		}
 		s.fl.VerifCycle()
+		checkStdLogger(s.c, "the configuration was applied and a cycle ran", s.desc)
 	}
+	stdPrint(s.c, "after the logger was created and configured", s.desc)
 	s.recordConfig()
 }
 
@@ -465,6 +468,9 @@ func (s *scn) recordConfig() {
 }
 
 func (s *scn) close() {
+	if s.fl != nil {
+		checkStdLogger(s.c, "the scenario", s.desc)
+	}
 	forceRemoveAll(s.home)
 	forceRemoveAll(s.home + ".away")
 }
@@ -579,6 +585,7 @@ type parsed struct {
 	name    string
 	raw     string
 	recs    []rec
+	proc    []string // lines the process itself printed through package log (stdlog.go): never belong into a log file
 	junk    []string // physical lines that are neither blank/header/trailer nor exactly one whole record
 	notok   []string // whole timestamped lines that carry no message token at all (nothing the monitor logged)
 	headers int
@@ -591,6 +598,10 @@ func parseLog(name, raw string) *parsed {
 	}
 	for ln, s := range strings.Split(raw, "\n") {
 		if s == "" || s == "\x1b[0m" {
+			continue
+		}
+		if strings.Contains(s, stdMark) {
+			p.proc = append(p.proc, fmt.Sprintf("line %d: %s", ln+1, clip(s, 160)))
 			continue
 		}
 		m := tsRe.FindString(s)
